@@ -63,10 +63,7 @@ func checkC17(e *Env) {
 	// every declared element is decoded and appended (loop i = 1 .. n-1)
 	countedLoop(e, "FORALL", r, "call:(*cbor.Decoder).DecodeArrayHeader("+tDec+")#0",
 		gate.CallOK("R.each", "certurl.DecodeAugmentedCertificateFrom", tDec),
-		gate.Gate{Key: "R.keep", Desc: "the decoded certificate is appended to the chain", Instr: func(in ssa.Instruction) bool {
-			c, ok := in.(*ssa.Call)
-			return ok && prov.CalleeName(&c.Call) == "builtin:append" && strings.Contains(prov.Of(c.Call.Args[1]), "AugmentedCertificate")
-		}})
+		gate.Gate{Key: "R.keep", Desc: "the decoded certificate is appended to the chain", Instr: collects("AugmentedCertificate")})
 	d := e.fn("signedexchange/certurl.DecodeAugmentedCertificateFrom")
 	e.requireGates("GATE", d, ro, noCfg,
 		gate.CallOK("D.header", "(*cbor.Decoder).DecodeMapHeader", "param:dec"),
